@@ -7,6 +7,7 @@ package c14
 
 import (
 	"fmt"
+	"net/textproto"
 	"testing"
 	"time"
 
@@ -28,7 +29,30 @@ type Case struct {
 	Chosen []string `json:"chosencases"`
 	// Hold: the consumer acquires this many ammo before it reads any of them (what that many instances do)
 	Hold int `json:"held_at_once"`
+	// DateMW: the provider is configured with `middlewares: [{type: header/date, ...}]` (docs/eng/providers.md,
+	// "HTTP Ammo middlewares": it sets the date header of the request just before execution)
+	DateMW *DateMW `json:"date_middleware,omitempty"`
 }
+
+type DateMW struct {
+	HeaderName string `json:"header_name,omitempty"` // "" = the default, Date
+	Location   string `json:"location,omitempty"`
+}
+
+// header is the canonical name of the header the middleware sets.
+func (m *DateMW) header() string {
+	if m.HeaderName == "" {
+		return "Date"
+	}
+	return textproto.CanonicalMIMEHeaderKey(m.HeaderName)
+}
+
+// names no generated ammo defines itself (ammogen's header pool, X-Trailing), so that what the request
+// carries under them is the middleware's doing alone
+var dateHeaderNames = []string{"", "", "Date", "X-Sent-At", "CreatedDate", "x-sent-at"}
+
+// the documented example uses `location: EST`; drawn only where the zone database has it
+var estAvailable = func() bool { _, err := time.LoadLocation("EST"); return err == nil }()
 
 var tagPool = []string{"t1", "t2", "t3", "a b", "x"}
 
@@ -64,6 +88,15 @@ func genCase(t *rapid.T) Case {
 				seen[tg] = true
 				c.Chosen = append(c.Chosen, tg)
 			}
+		}
+	}
+	if rapid.IntRange(0, 2).Draw(t, "dateMW") == 0 {
+		c.DateMW = &DateMW{
+			HeaderName: rapid.SampledFrom(dateHeaderNames).Draw(t, "dateHeader"),
+			Location:   rapid.SampledFrom([]string{"", "UTC", "EST"}).Draw(t, "dateLocation"),
+		}
+		if c.DateMW.Location == "EST" && !estAvailable {
+			c.DateMW.Location = "UTC"
 		}
 	}
 	return c
@@ -118,6 +151,16 @@ func run(c Case, preload bool, take int) (outcome, error) {
 	if preload {
 		conf["preload"] = true
 	}
+	if c.DateMW != nil {
+		mw := map[string]any{"type": "header/date"}
+		if c.DateMW.HeaderName != "" {
+			mw["headerName"] = c.DateMW.HeaderName
+		}
+		if c.DateMW.Location != "" {
+			mw["location"] = c.DateMW.Location
+		}
+		conf["middlewares"] = []any{mw}
+	}
 	p, err := provrun.Build(conf)
 	if err != nil {
 		return outcome{}, fmt.Errorf("valid provider config rejected (preload=%v): %v", preload, err)
@@ -136,6 +179,17 @@ func run(c Case, preload bool, take int) (outcome, error) {
 }
 
 var extraOK = map[string]bool{"Content-Length": true}
+
+// checkDate: the middleware touches nothing but its header, and every delivered request - first pass or a
+// later one, streamed or preloaded - carries exactly one value of it.
+func checkDate(m *DateMW, g ag.Got) error {
+	vals := g.Headers[m.header()]
+	if len(vals) != 1 || vals[0] == "" {
+		return fmt.Errorf("the header/date middleware (headerName %q) is configured once, the delivered request carries %d values of %s: %q",
+			m.HeaderName, len(vals), m.header(), vals)
+	}
+	return nil
+}
 
 func check(c Case, o *vf.Obs) error { return checkWith(c, o, nil) }
 
@@ -183,9 +237,19 @@ func checkWith(c Case, o *vf.Obs, r *vf.Run) error {
 			return fmt.Errorf("preload=%v limit=%d passes=%d chosencases=%q: %d ammo delivered, expected %d (%d of the file's %d entries carry a listed tag; limit counts delivered entries, passes counts file passes); Run error: %v\n--- file ---\n%q",
 				preload, c.Limit, c.Passes, c.Chosen, len(out.items), want, len(sel), E, out.runErr, c.File.Render())
 		}
+		okExtra := extraOK
+		if c.DateMW != nil {
+			okExtra = map[string]bool{"Content-Length": true, c.DateMW.header(): true}
+		}
 		for k, g := range out.items {
-			if err := ag.Compare(sel[k%len(sel)], g, extraOK); err != nil {
+			if err := ag.Compare(sel[k%len(sel)], g, okExtra); err != nil {
 				return fmt.Errorf("preload=%v chosencases=%q: item %d: %v\n--- file ---\n%q", preload, c.Chosen, k, err, c.File.Render())
+			}
+			if c.DateMW != nil {
+				if err := checkDate(c.DateMW, g); err != nil {
+					return fmt.Errorf("preload=%v limit=%d passes=%d chosencases=%q: item %d (delivery %d of entry %d of the %d selected): %v\n--- file ---\n%q",
+						preload, c.Limit, c.Passes, c.Chosen, k, k/len(sel)+1, k%len(sel), len(sel), err, c.File.Render())
+				}
 			}
 		}
 		if X >= 0 {
@@ -236,6 +300,19 @@ func checkWith(c Case, o *vf.Obs, r *vf.Run) error {
 	o.ClassIf(proper, "proper_subset")
 	o.ClassIf(len(c.Chosen) == 0, "no_filter")
 	o.ClassIf(X >= 0 && X == c.Limit && proper, "limit_hit_with_filter")
+	if c.DateMW != nil && !emptyMatch {
+		redelivered := len(sel) > 0 && want > len(sel)
+		withHeaders := false // an entry that is delivered again and has headers of its own (directives / "headers")
+		if redelivered {
+			for k := 0; k < want-len(sel) && k < len(sel); k++ {
+				withHeaders = withHeaders || len(sel[k].Headers) > 0
+			}
+		}
+		o.Class("date_middleware")
+		o.ClassIf(redelivered, "date_middleware_entry_redelivered")
+		o.ClassIf(withHeaders, "date_middleware_redelivered_entry_has_headers")
+		o.ClassIf(c.DateMW.HeaderName != "", "date_middleware_custom_header")
+	}
 	if proper || X >= 0 {
 		o.NonTrivial()
 	}
